@@ -82,7 +82,9 @@ def root(mids: list[tuple[str, str]], variant: dict) -> str:
 
 def unrelated(variant: dict) -> str:
 	k = variant.get('k', 3)
-	return '\n'.join(['def lone(a: int) -> int:', f'\treturn a + {k}', '', '', 'class Solo:', '\tn: int', '', '\tdef __init__(self) -> None:', f'\t\tself.n = {k}', '']) + '\n'
+	# more than 8 KiB of text in front of the part an edit changes (sources are hashed and read in blocks)
+	pad = [line for i in range(230) for line in (f'def filler_{i:03d}(a: int) -> int:', f'\treturn a + {i}', '', '')]
+	return '\n'.join(pad + ['def lone(a: int) -> int:', f'\treturn a + {k}', '', '', 'class Solo:', '\tn: int', '', '\tdef __init__(self) -> None:', f'\t\tself.n = {k}', '']) + '\n'
 
 
 class HistProject:
@@ -93,12 +95,12 @@ class HistProject:
 		self.pkg = pkg
 		self.variants: dict[str, dict] = {}
 		if shape == 'chain':
-			self.names = {'l': f'{pkg}.leaf', 'm': f'{pkg}.mid', 'r': f'{pkg}.root', 'u': f'{pkg}.leaf2'}  # 'leaf' is a prefix of the unrelated module's name
+			self.names = {'l': f'{pkg}.leaf', 'm': f'{pkg}.mid', 'r': f'{pkg}.root', 'u': f'{pkg}.leaf2_with_a_very_long_module_name_that_pushes_the_recorded_header_line_past_two_hundred_and_fifty_six_bytes'}  # 'leaf' is a prefix of the unrelated module's name
 		elif shape == 'deep':
 			# kernel <- leaf <- (mid_a, mid_b) <- root: the join of the diamond is two imports away from the module that decides the type
-			self.names = {'k': f'{pkg}.kernel', 'l': f'{pkg}.leaf', 'a': f'{pkg}.mid_a', 'b': f'{pkg}.mid_b', 'r': f'{pkg}.root', 'u': f'{pkg}.mid_a2'}
+			self.names = {'k': f'{pkg}.kernel', 'l': f'{pkg}.leaf', 'a': f'{pkg}.mid_a', 'b': f'{pkg}.mid_b', 'r': f'{pkg}.root', 'u': f'{pkg}.mid_a2_with_a_very_long_module_name_that_pushes_the_recorded_header_line_past_two_hundred_and_fifty_six_bytes'}
 		else:
-			self.names = {'l': f'{pkg}.leaf', 'a': f'{pkg}.mid_a', 'b': f'{pkg}.mid_b', 'r': f'{pkg}.root', 'u': f'{pkg}.mid_a2'}  # 'mid_a' is a prefix of the unrelated module's name
+			self.names = {'l': f'{pkg}.leaf', 'a': f'{pkg}.mid_a', 'b': f'{pkg}.mid_b', 'r': f'{pkg}.root', 'u': f'{pkg}.mid_a2_with_a_very_long_module_name_that_pushes_the_recorded_header_line_past_two_hundred_and_fifty_six_bytes'}  # 'mid_a' is a prefix of the unrelated module's name
 		for k in self.names:
 			self.variants[k] = {}
 
